@@ -57,3 +57,27 @@ Definition judge3 (c : ty * ty * ty * list ty) : nat :=
          (map (fun r => if teqb m r then 0 else if has_bad r then 2 else
                  if forallb (fun g => Bool.eqb (inst r g) (inst m g)) (wit m :: wit r :: gsample)
                  then 1 else 2) rs) 0.
+
+(* histories (Types/TypeHist.v): after every operation the read-back of every reference against the model's
+   view; the run stops at the first clash, which both sides must report at the same step.
+   0: agree; 2: differ (the failing history is the input) *)
+From LV Require Import Types.TypeHist.
+Fixpoint list_teqb (a b : list ty) : bool :=
+  match a, b with
+  | [], [] => true
+  | x :: a', y :: b' => teqb x y && list_teqb a' b'
+  | _, _ => false
+  end.
+
+Fixpoint judge_hist_go (s : hst) (steps : list (hop * list ty)) : nat :=
+  match steps with
+  | [] => 0
+  | (o, rv) :: rest =>
+      let s' := hstep s o in
+      let mv := view s' in
+      if any_bad mv || any_bad rv then (if any_bad mv && any_bad rv then 0 else 2)
+      else if list_teqb mv rv then judge_hist_go s' rest else 2
+  end.
+
+Definition judge_hist (c : list ty * list (hop * list ty)) : nat :=
+  judge_hist_go (hinit (fst c)) (snd c).
